@@ -288,6 +288,12 @@ func (c *Config) validateBackends() error {
 	return nil
 }
 
+// ValidateBackendAddress is the check Validate applies to a backend address, for backends that
+// are registered at run time (Admin API) instead of in the configuration file
+func ValidateBackendAddress(address string) error {
+	return validateBackendAddress(address)
+}
+
 // validateBackendAddress refuses addresses the proxy could never send a request to. An
 // address like "localhost:8081" parses as a URL (with scheme "localhost") and used to be
 // accepted: the proxy started and answered every request with 502
